@@ -435,6 +435,9 @@ static int eval_state(Tins::PDU* obj, const KRow& k, const std::string& spec, co
     int nbad = 0;
     uint64_t evals = 0, with_result = 0, calls = 0, id = fnv(k.name);
     for (auto& t : TR) {
+        // plain T rows only: PDUCacher<Y>::pdu_flag IS Y::pdu_flag, so for T = PDUCacher<Y> the helpers decide exactly as for T = Y
+        // (already evaluated), and K -> PDUCacher<K> is the known wrapper alias, evaluated on the default objects in stage 1
+        if (t.wrapper) continue;
         Outcome out;
         t.check(c, t, out);
         ++evals;
